@@ -50,10 +50,10 @@ def selftest(ck):
     issues only two of its three command() calls.  The oracle must fire in both."""
     exe = build(ck)["h_c12"]
     bad = 0
-    want = {1: ("C12:user-with-command-not-served", 0), 2: ("C12:command-efun-limited", 1)}
-    for st, (key, budget) in want.items():
+    want = {1: ("C12:user-with-command-not-served", []), 2: ("C12:command-efun-limited", ["--force-m=1"])}
+    for st, (key, extra) in want.items():
         ck2 = vlib.Check("C12", "quick", 0, LEVEL)
-        ck2.explore(exe, ["--selftest=%d" % st, "--max-exec=6000"], "selftest%d" % st, budget=budget, jobs=8)
+        ck2.explore(exe, ["--selftest=%d" % st, "--max-exec=6000"] + extra, "selftest%d" % st, budget=0, jobs=8)
         if key not in ck2.fails:
             print("SELFTEST-FAILED C12 variant %d did not raise %s (got %s)" % (st, key, sorted(ck2.fails)[:6])); bad = 1
         else:
